@@ -3,6 +3,7 @@ import json, os, queue, subprocess, threading, time
 
 VERIF = os.path.dirname(os.path.dirname(os.path.dirname(os.path.abspath(__file__))))
 RLV = os.path.join(VERIF, "target", "debug", "rlv")
+SHIM = os.path.join(VERIF, "target", "getrandom_shim.so")
 NCPU = int(os.environ.get("RLV_WORKERS", os.cpu_count() or 8))
 
 
@@ -19,7 +20,24 @@ def build():
     if p.returncode != 0:
         print(p.stdout[-4000:])
         raise MachineryError("harness build failed (does /repo still compile with --features verif?)")
+    src = os.path.join(VERIF, "harness", "shim", "getrandom_shim.c")
+    if not os.path.exists(SHIM) or os.path.getmtime(SHIM) < os.path.getmtime(src):
+        for cc in ("cc", "clang", "gcc"):
+            q = subprocess.run([cc, "-O2", "-shared", "-fPIC", "-o", SHIM, src], stdout=subprocess.PIPE, stderr=subprocess.STDOUT, text=True)
+            if q.returncode == 0:
+                break
+        else:
+            raise MachineryError("could not build the getrandom shim: " + q.stdout[-500:])
     return time.time() - t0
+
+
+def child_env():
+    """Environment of every rlv process: the getrandom shim makes hash-map iteration order a deterministic function
+    of the per-script `_seed` (default 0)."""
+    env = dict(os.environ)
+    if os.path.exists(SHIM):
+        env["LD_PRELOAD"] = SHIM
+    return env
 
 
 class _Worker:
@@ -30,7 +48,7 @@ class _Worker:
 
     def start(self):
         self.p = subprocess.Popen(self.cmd, stdin=subprocess.PIPE, stdout=subprocess.PIPE,
-                                  stderr=subprocess.DEVNULL, text=True, bufsize=1)
+                                  stderr=subprocess.DEVNULL, text=True, bufsize=1, env=child_env())
 
     def call(self, script):
         if self.p is None or self.p.poll() is not None:
@@ -132,7 +150,7 @@ def run_many(subcmd, scripts, args=(), workers=None, timeout=60, progress=None):
 def run_stream(subcmd, args, on_line, timeout=None):
     """Run `rlv <subcmd> args...` once, calling on_line(dict) for each JSON line it prints.
     Returns the exit code."""
-    p = subprocess.Popen([RLV, subcmd] + list(args), stdout=subprocess.PIPE, stderr=subprocess.PIPE, text=True)
+    p = subprocess.Popen([RLV, subcmd] + list(args), stdout=subprocess.PIPE, stderr=subprocess.PIPE, text=True, env=child_env())
     for line in p.stdout:
         line = line.strip()
         if not line:
@@ -170,3 +188,9 @@ def run_shards(subcmd, args, nshards=None, on_line=None):
     for t in ts:
         t.join()
     return lines, rcs
+
+
+if __name__ == "__main__":
+    import sys
+    if sys.argv[1:] == ["build"]:
+        print("built in %.1fs" % build())
